@@ -125,7 +125,7 @@ static void exec(vh::Rng & r, vh::Out & out)
 {
   if (r.coin(1, 3)) {out.put(vh::Ev("Reset").b("anchor", false).b("anch", false)); generic(r, out); return;}
   std::unique_ptr<ENUConverter> c;
-  Frame f{};
+  Frame f{IV{1, 0, 1}, IV{1, 0, 1}, 0, false};          // what a fresh converter reports as its anchor: latitude 0, longitude 0, height 0
   bool anchored = false;
   if (r.coin()) {
     f = randomFrame(r);
@@ -154,7 +154,19 @@ static void exec(vh::Rng & r, vh::Out & out)
       }
       out.put(vh::Ev("copy").i("how", how).b("anch", c->isAnchored()));
     }
-    if (what == 0) {
+    if (what == 0 && c->getAnchor().altitude == (double)f.h && c->getAnchor().latitude == ang(f.la) &&
+      c->getAnchor().longitude == ang(f.lo, f.negPi) && r.coin(1, 4)) {
+      // the converter's own anchor handed back to it by reference (argument aliasing): re-anchoring at the same place, also after a
+      // reset (the last anchor is still what getAnchor() reports) and through the self-anchoring conversion
+      if (!anchored && r.coin()) {
+        Eigen::Vector3d v = c->toENU(c->getAnchor()); anchored = true;
+        out.put(vh::Ev("toEnuGeo").vec("la", f.la).vec("lo", f.lo).i("h", f.h).vec("mm", mm(v)).b("anch", c->isAnchored()));
+      } else {
+        c->setAnchor(c->getAnchor()); anchored = true;
+        out.put(vh::Ev("setAnchor").vec("la", f.la).vec("lo", f.lo).i("h", f.h).b("anch", c->isAnchored()));
+      }
+      probe(r, *c, f, out);
+    } else if (what == 0) {
       Frame prev = f; bool was = anchored;
       f = randomFrame(r);
       if (was && r.coin(1, 3)) {f = prev; f.h = prev.h + r.pick(IV{-150, 1115, 9000 - prev.h});}      // same latitude / longitude, another height
